@@ -524,6 +524,7 @@ var unitKinds = []string{"txxid", "txxid", "txcommit", "txrollback", "ddl", "aut
 
 // GenLog builds a random well-formed log.
 func GenLog(r *rand.Rand, cfg WireCfg, gp GenParams, bases []uint32) *Log {
+	cfg.PadOnes = r.Intn(3) == 0
 	l := &Log{Cfg: cfg}
 	nt := 1 + r.Intn(gp.MaxTables)
 	var tables []*Table
